@@ -46,6 +46,7 @@ inductive SEv
   | request (d : Bytes) (tmo : Option Nat)
   | close
   | reconnect
+  | read (tmo : Option Nat)      -- `transport.read(tmo)` (drains a backlog of unconsumed frames)
 deriving Repr
 
 /-- the connection the transport holds -/
@@ -347,6 +348,7 @@ inductive Obs
   | req (o : Out) (t0 t1 : Nat) (nconn : Nat)
   | closed (t : Nat)
   | rc (r : RcRes) (t0 t1 : Nat) (nconn : Nat)
+  | rd (r : PRes) (t0 t1 : Nat)
 deriving Repr
 
 /-- run an event list (`fuel` ≥ its length; a client call never lengthens the list) -/
@@ -360,6 +362,11 @@ def run (P : SProto Q) (cls : Bytes → Ev) (c : CCfg) : Nat → Sys Q → List 
     | .reconnect =>
       let r := reconnect P s es
       run P cls c fuel r.2.1 r.2.2 (obs ++ [.rc r.1 s.now r.2.1.now r.2.1.nconn])
+    | .read tmo =>
+      let r := opRead P s es tmo
+      let obs := obs ++ [.rd r.1 s.now r.2.1.now]
+      if r.1 = .blocked then (r.2.1, obs)
+      else run P cls c fuel r.2.1 r.2.2 obs
     | .request d tmo =>
       let r := request P cls c d tmo s es
       let obs := obs ++ [.req r.1 s.now r.2.1.now r.2.1.nconn]
